@@ -11,6 +11,7 @@ import (
 
 	"github.com/biogo/biogo/alphabet"
 	"github.com/biogo/biogo/feat"
+	"github.com/biogo/biogo/io/featio"
 	"github.com/biogo/biogo/io/featio/bed"
 	"github.com/biogo/biogo/io/featio/gff"
 	"github.com/biogo/biogo/seq"
@@ -38,9 +39,57 @@ type BedRec struct {
 
 // BedFile is a list of records of struct type N written at column count M <= N.
 type BedFile struct {
-	N    int      `json:"n"`
-	M    int      `json:"m"`
-	Recs []BedRec `json:"recs"`
+	N     int      `json:"n"`
+	M     int      `json:"m"`
+	Route int      `json:"route,omitempty"` // see GenRoute
+	Recs  []BedRec `json:"recs"`
+}
+
+// readAllFeat drives a feature reader to io.EOF, directly or through
+// featio.Scanner, and returns every feature. Nothing is inspected before the
+// end of the input, so storage reused between records shows up as wrong fields
+// in the earlier ones.
+func readAllFeat(r featio.Reader, route, maxCalls int) ([]feat.Feature, error) {
+	var out []feat.Feature
+	if route&1 != 0 {
+		sc := featio.NewScanner(r)
+		for i := 0; sc.Next(); i++ {
+			f := sc.Feat()
+			if f == nil {
+				return out, fmt.Errorf("read: Scanner.Next true with a nil feature at record %d", len(out))
+			}
+			out = append(out, f)
+			if i > maxCalls {
+				return out, fmt.Errorf("read: no EOF after %d calls", i)
+			}
+		}
+		if err := sc.Error(); err != nil {
+			return out, fmt.Errorf("read-error: record %d: %v", len(out), err)
+		}
+		if sc.Next() {
+			return out, fmt.Errorf("read: Scanner.Next true again after it returned false")
+		}
+		return out, nil
+	}
+	for i := 0; ; i++ {
+		f, err := r.Read()
+		if err == io.EOF {
+			if f != nil {
+				return out, fmt.Errorf("read: record together with io.EOF")
+			}
+			return out, nil
+		}
+		if err != nil {
+			return out, fmt.Errorf("read-error: record %d: %v", len(out), err)
+		}
+		if f == nil {
+			return out, fmt.Errorf("read: (nil, nil) at record %d", len(out))
+		}
+		out = append(out, f)
+		if i > maxCalls {
+			return out, fmt.Errorf("read: no EOF after %d calls", i)
+		}
+	}
 }
 
 var BedTypes = []int{3, 4, 5, 6, 12}
@@ -79,6 +128,7 @@ func GenBedFile(t *rapid.T, maxRecs int) BedFile {
 		}
 	}
 	f.M = f.N
+	f.Route = GenRoute(t)
 	if rapid.Bool().Draw(t, "bed-narrower") {
 		f.M = rapid.SampledFrom(ms).Draw(t, "bed-m")
 	}
@@ -186,31 +236,23 @@ func joinInts(a []int) string {
 // ReadLib parses data as BED type m until io.EOF and compares with the first
 // m columns of the records.
 func (f BedFile) ReadCompare(data []byte) error {
-	r, err := bed.NewReader(bytes.NewReader(data), f.M)
+	r, err := bed.NewReader(Source(data, f.Route), f.M)
 	if err != nil {
 		return fmt.Errorf("read-error: NewReader: %v", err)
 	}
-	for i := 0; ; i++ {
-		got, err := r.Read()
-		if err == io.EOF {
-			if i != len(f.Recs) {
-				return fmt.Errorf("record-count: wrote %d records, read %d", len(f.Recs), i)
-			}
-			return nil
-		}
-		if err != nil {
-			return fmt.Errorf("read-error: record %d: %v", i, err)
-		}
-		if got == nil {
-			return fmt.Errorf("read: (nil, nil) at record %d", i)
-		}
-		if i >= len(f.Recs) {
-			return fmt.Errorf("record-count: wrote %d records, read more", len(f.Recs))
-		}
-		if err := bedEqual(got, f.Recs[i], f.M); err != nil {
+	got, err := readAllFeat(r, f.Route, len(data)+2)
+	if err != nil {
+		return err
+	}
+	if len(got) != len(f.Recs) {
+		return fmt.Errorf("record-count: wrote %d records, read %d", len(f.Recs), len(got))
+	}
+	for i := range got {
+		if err := bedEqual(got[i], f.Recs[i], f.M); err != nil {
 			return fmt.Errorf("field: record %d: %v", i, err)
 		}
 	}
+	return nil
 }
 
 func bedEqual(got feat.Feature, r BedRec, m int) error {
@@ -325,6 +367,7 @@ type GffItem struct {
 type GffFile struct {
 	Header bool      `json:"header"`
 	Width  int       `json:"width"`
+	Route  int       `json:"route,omitempty"` // see GenRoute
 	Items  []GffItem `json:"items"`
 }
 
@@ -393,6 +436,7 @@ func genBlankFreeToken(t *rapid.T, label string) string {
 // GenGffFile draws a GFF case.
 func GenGffFile(t *rapid.T, maxItems int) GffFile {
 	f := GffFile{Header: rapid.Bool().Draw(t, "header"), Width: rapid.OneOf(rapid.IntRange(1, 80), rapid.SampledFrom([]int{1, 60, 4096})).Draw(t, "width")}
+	f.Route = GenRoute(t)
 	n := rapid.IntRange(0, maxItems).Draw(t, "nitems")
 	for i := 0; i < n; i++ {
 		var it GffItem
@@ -663,15 +707,18 @@ func (f GffFile) Text(eol string, finalEOL bool) []byte {
 
 // ReadCompare parses data with gff.Reader and compares with the items.
 func (f GffFile) ReadCompare(data []byte) error {
-	r := gff.NewReader(bytes.NewReader(data))
+	r := gff.NewReader(Source(data, f.Route))
+	all, rerr := readAllFeat(r, f.Route, len(data)+2)
+	if rerr != nil {
+		return rerr
+	}
 	curType := feat.Undefined
 	idx := 0
 	next := func() (feat.Feature, error) {
-		g, err := r.Read()
-		if err == nil && g == nil {
-			return nil, fmt.Errorf("read: (nil, nil)")
+		if idx >= len(all) {
+			return nil, io.EOF
 		}
-		return g, err
+		return all[idx], nil
 	}
 	for i, it := range f.Items {
 		switch it.Kind {
